@@ -229,6 +229,44 @@ def run(ctx):
         traces.append(t)
         info[t["id"]] = {"src": "after-cut-transfer", "reply": (o.reply() or {}).get("errorcode")}
     res.coverage["signed_after_a_cut_transfer"] = n_after
+    # transactions whose serialisation as received is beyond 64 KiB, through the whole sign path (validation
+    # included): what reaches the device is still the canonical form
+    n_big = 0
+    for n_in in ((450, 700) if ctx.quick else (450, 500, 700, 1200)):
+        install(world)
+        world.device.mode = MODE_SIGNER
+        proto._comm_issue = False
+        world.reset_counters()
+        world.faults = {}
+        reqB, stB = reqs.make(ctx.rng.choice(["sign_legacy", "sign_segwit"]), ctx.rng)
+        stB["tx"] = enc.random_tx(ctx.rng, n_in=n_in, n_out=2, big=True)
+        stB["input"] = ctx.rng.randrange(n_in)
+        reqB["message"]["tx"] = enc.tx_bytes(stB["tx"]).hex()
+        reqB["message"]["input"] = stB["input"]
+        del world.device.sign_log[:]
+        world.device.sign = None
+        o = mgr.handle_line(proto, json.dumps(reqB).encode())
+        sess = world.device.sign_log[-1] if world.device.sign_log else world.device.sign
+        st, keep, raw = unsignx.from_enc_tx(stB["tx"])
+        t = {"kind": "tx", "tx": unsignx.tx_rec(st), "keep": list(keep), "parsed": False, "out": unsignx.tx_rec(st),
+             "keepout": [], "raw": [256], "raw2": [256], "rawv": [256], "code": 0, "contacted": True}
+        try:
+            btc = bytes(sess["got"]["btc"])
+            extralen = struct.unpack("<H", btc[5:7])[0]
+            relayed = btc[7:len(btc) - extralen]
+            t["raw"] = list(relayed)
+            t["rawv"] = list(relayed)
+            ost, okeep = unsignx.parse_tx(relayed)
+            t["parsed"], t["out"], t["keepout"] = True, unsignx.tx_rec(ost), list(okeep)
+            t["raw2"] = list(real_unsign(relayed.hex()))
+        except Exception:
+            pass
+        t["id"] = len(traces) + 1
+        traces.append(t)
+        info[t["id"]] = {"src": "beyond-64KiB-through-sign-path", "inputs": n_in, "bytes": len(raw),
+                         "reply": (o.reply() or {}).get("errorcode")}
+        n_big += 1
+    res.coverage["transactions_beyond_64KiB_through_the_sign_path"] = n_big
     verdicts, stats = tlc.validate("TraceUnsign", "Trace_Unsign.cfg", traces, shards=14)
     res.checker_cmds.append("tlc -workers 1 -config Trace_Unsign.cfg TraceUnsign (x%d shards)" % stats["jvms"])
     accepted = 0
